@@ -227,7 +227,8 @@ Exec(m, p, s) ==
     [] s.k \in {"return", "next"} /\ m.ctlx -> OutOfModel(m, "frames after error")
     [] s.k = "return" ->
          LET r == PopToGosub(m.ctl) IN
-         IF ~r.found THEN Fail([m EXCEPT !.ctl = <<>>, !.nslots = 0], p, Err(EReturnWithoutGosub))
+         \* (RETURN searched the whole stack: nothing is left on it, whatever the mode)
+         IF ~r.found THEN [Fail([m EXCEPT !.ctl = <<>>, !.nslots = 0], p, Err(EReturnWithoutGosub)) EXCEPT !.ctlx = FALSE]
          \* a frame made by a direct line that has since been replaced: returning into it is
          \* not defined by the manual
          ELSE IF r.f.ln = Direct /\ r.f.gen # m.dgen THEN OutOfModel(m, "frame of an old direct line")
@@ -406,6 +407,11 @@ Exec(m, p, s) ==
          \* accepted too -- the manual does not enumerate the reasons -- and nothing may change.
          ELSE LET r == RenumMap(DOMAIN m.src, s.new, s.old, s.step) IN
               IF ~r.ok \/ ("obsfail" \in DOMAIN s /\ s.obsfail) THEN Fail(m, p, Err(AnyErr))
+              \* a RENUM that changes no line number edits nothing: whether a continuation and pending
+              \* frames survive it is not fixed (they cannot lead into a different program)
+              ELSE IF \A n \in DOMAIN m.src : r.f[n] = n
+                   THEN GoReady([m EXCEPT !.contx = (@ \/ m.cont # NoCont), !.cont = NoCont,
+                                          !.stale = (@ \/ m.ctl # <<>> \/ m.ctlx), !.ctl = <<>>, !.nslots = 0, !.ctlx = FALSE])
               ELSE LET src2 == RenumSrc(m.src, r.f) IN
                    GoReady(Edited(m, [n \in DOMAIN src2 |-> Norm(src2[n])], src2))
     [] s.k = "cls" -> [Item(m, [k |-> "cls"]) EXCEPT !.pc = Adv(p)]
